@@ -8,6 +8,8 @@ from . import core
 def main(argv):
     prop, tier, seed, shard, nshards, out, soft = argv[0], argv[1], int(argv[2]), int(argv[3]), int(argv[4]), argv[5], float(argv[6])
     core.setup_path()
+    import faulthandler, os
+    faulthandler.dump_traceback_later(float(os.environ.get('VERIF_STALL_DUMP', '400')), repeat=True, file=sys.stderr)
     mod = core.load_prop(prop)
     ctx = core.Ctx(prop, tier, seed, shard, nshards)
     core.run_cases(ctx, mod, budget=soft)
